@@ -78,6 +78,15 @@ CLAIMED = {
             note="Trusted: Coq kernel, extraction+driver, harness. The encoders (EncodeCatRows, pipes.Flatten, _make_sparse, _make_dense) are not modelled: their injectivity on each generated action set is a checked precondition (hash collisions and noise collisions are skipped); "
                  "Batch/Unbatch is covered by C09; reward noise is excluded by design.",
             technique="Coq proof (polymorphic re-keying lemma) + extracted-model correspondence + before/after oracle", design="§5 C10"),
+ "C04": dict(text="Coq theorems (C04/Props.v) over the generator state machine of pipes.Cache (behind cache(), chunk(), materialize()): for EVERY history of complete reads and reads abandoned after k items on one object, "
+                  "every read returns exactly the prefix of the source it consumed and a complete read returns the source (invariant cache ++ rest = source, induction over the slice-pulling loop and over the history); "
+                  "marking the cache complete on a dropped read loses data (refuted example = the seeded change); the logged Shuffle restores its temporary seed on completion and on drop. The Cache model is compared with "
+                  "the real class under counted upstream reads; random pipelines over every public source kind are read under random histories (full, partial, params, pickle, materialize, save/from_save) and compared with a "
+                  "freshly built twin, with deep snapshots of caller data.",
+            note="Trusted: Coq kernel, extraction+driver, harness. Only Cache and the logged Shuffle are modelled as state machines; every other filter is treated as a pure function of its input (justified by C05's independence theorem "
+                 "and checked by the twin oracle, not proved). 'Reading never modifies caller data' is snapshot-checked only (aliasing is not in the model). Densify's lookup table is shared by all environments of an Environments.dense() call "
+                 "(read-order dependent across environments) - not covered by single-environment histories.",
+            technique="Coq proof (generator state machine invariant) + extracted-model correspondence + twin-pipeline oracle", design="§5 C04"),
 }
 NA_REASON = "check not built yet in this revision (planned, see DESIGN.md §8); no claim is made"
 def main():
